@@ -21,8 +21,8 @@ def _fn(items):
     return "(" + " @@ ".join(f"{k} :> {v}" for k, v in items) + ")" if items else "<<>>"
 
 def task_rec(t):
-    return ("[st |-> %s, rh |-> %s, queued |-> %s, held |-> %s, outs |-> %s, sat |-> {%s}, sub |-> %d, efail |-> %d, sfail |-> %d]"
-            % (tla(t["st"]), tla(t["rh"]), tla(t["queued"]), tla(t["held"]), tla(set(t["outs"])),
+    return ("[st |-> %s, rh |-> %s, queued |-> %s, held |-> %s, manual |-> %s, outs |-> %s, sat |-> {%s}, sub |-> %d, efail |-> %d, sfail |-> %d]"
+            % (tla(t["st"]), tla(t["rh"]), tla(t["queued"]), tla(t["held"]), tla(bool(t.get("manual"))), tla(set(t["outs"])),
                ", ".join(sorted(_atom(k) for k in t["sat"])), t["sub"], t["efail"], t["sfail"]))
 
 def state_tla(st, qnames):
@@ -38,14 +38,17 @@ def state_tla(st, qnames):
     hp = NOPOINT if st.get("holdpt") is None else st["holdpt"]
     sp = NOPOINT if st.get("stop") is None else st["stop"]
     fut = "[" + ", ".join("%s |-> %d" % (t, int(v)) for t, v in sorted(st["futseen"].items())) + "]"
-    return ("[pool |-> %s, rhl |-> %d, rhbase |-> %d, q |-> %s, cmds |-> %s, acks |-> %s, jobs |-> %s, net |-> %s, stopped |-> %s, futseen |-> %s, maxfut |-> %d, tohold |-> %s, holdpt |-> %d, stop |-> %d]"
-            % (pool, rhl, rhb, q, cmds, acks, jobs, net, tla(st["stopped"]), fut, int(st["maxfut"]), toh, hp, sp))
+    trig = "{" + ", ".join('<<%s, %d>>' % (tla(i[0]), i[1]) for i in st.get("trig", [])) + "}"
+    return ("[pool |-> %s, rhl |-> %d, rhbase |-> %d, q |-> %s, cmds |-> %s, acks |-> %s, jobs |-> %s, net |-> %s, stopped |-> %s, futseen |-> %s, maxfut |-> %d, tohold |-> %s, holdpt |-> %d, stop |-> %d, trig |-> %s]"
+            % (pool, rhl, rhb, q, cmds, acks, jobs, net, tla(st["stopped"]), fut, int(st["maxfut"]), toh, hp, sp, trig))
 
 def step_tla(s, qnames):
     ev, arg = s["ev"], s["arg"]
     if ev in ("CmdHoldPoint", "CmdStopPoint"):
         a = str(int(arg))
-    elif ev in ("QueueIfReady", "CmdHold", "CmdRelease"):
+    elif ev == "CmdSetOut":
+        a = '<< <<%s, %d>>, %s >>' % (tla(arg[0][0]), arg[0][1], tla(arg[1]))
+    elif ev in ("QueueIfReady", "CmdHold", "CmdRelease", "CmdTrigger"):
         a = '<<%s, %d>>' % (tla(arg[0]), arg[1])
     elif ev in ("EnvLaunch", "EnvJobStep", "SubmitCallback", "Deliver", "Poll"):
         a = _jid(arg)
@@ -82,4 +85,6 @@ CONSTANTS
   Faults <- MT_Faults
   StopAt <- MT_Stop
   CmdBudget = 99
+  CmdKinds = {"hold", "release", "holdpt", "relall", "stoppt", "stopnow", "trigger", "set"}
+  SetOuts = {"submitted", "started", "succeeded", "failed", "expired", "submit-failed", "x"}
 """
